@@ -6,6 +6,7 @@ import Mathlib.Tactic.IntervalCases
 import Mathlib.Tactic.Linarith
 import WebpVerif.Lemmas.EncHuffCodes
 import WebpVerif.Lemmas.PrefixFree
+import WebpVerif.Lemmas.HuffTop
 
 /-!
 # C01 — VP8L decoding matches the lossless specification for every valid stream
@@ -195,5 +196,45 @@ theorem symbol_decoder_total (lengths : Array Nat) (hall : ∀ l ∈ lengths.toL
 example : Prefix.kraft [1, 0, 2, 3, 3] 15 = 2 ^ 15 ∧
     Prefix.decodeSym [1, 0, 2, 3, 3] 15 0 0 [1, 1, 0, 1, 1, 1, 1, 1, 1, 1, 1, 1, 1, 1, 1, 1] = some (3, [1, 1, 1, 1, 1, 1, 1, 1, 1, 1, 1, 1, 1]) := by
   decide
+
+/-! ### the crate's entropy decoder: `HuffmanTree` -/
+
+/-- **`HuffmanTree` reads what the specification reads.**  `Huff.build` / `Huff.readSym` model
+    `HuffmanTree::build_implicit` / `read_symbol` (primary table with replicated entries, the
+    secondary trees of `Branch(offset)` / `Leaf` / `Empty` nodes in one vector, the slow path).
+    For EVERY length vector (lengths ≤ 15, up to 5000 symbols - any alphabet, any shape) for which
+    the builder returns a table: the vector is a valid (complete) code of the specification, and
+    on EVERY string of at least 15 bits the reader returns exactly the symbol, and leaves exactly
+    the rest, that the specification's canonical decoder returns.  Proved through: the
+    `next_codes` loop hands out the canonical code words; every table slot and every tree path
+    that starts with the word of an already inserted symbol still answers with that symbol after
+    each later insertion (prefix-freeness of the canonical code; later insertions only write
+    `Empty` nodes and appended nodes); the slow path follows the inserted path. -/
+theorem huffman_tree_reads_spec (ls : List Nat) (hall : ∀ l ∈ ls, l ≤ 15) (hn : ls.length ≤ 5000) (t : Huff.HT)
+    (ht : Huff.build ls = .ok t) :
+    Prefix.validLengths ls = true ∧
+    ∀ bits : List Nat, (∀ b ∈ bits, b < 2) → 15 ≤ bits.length →
+      Huff.readSym (Huff.build ls) bits = Prefix.decodeSymbol ls bits :=
+  Huff.build_ok_spec ls hall hn t ht
+
+/-- a vector with exactly one used symbol: the single-node tree, no bits read -/
+theorem huffman_tree_single (ls : List Nat) (hall : ∀ l ∈ ls, l ≤ 15) (s : Nat) (hs : Huff.build ls = .single s) :
+    Prefix.validLengths ls = true ∧ ∀ bits : List Nat, Huff.readSym (Huff.build ls) bits = Prefix.decodeSymbol ls bits :=
+  Huff.build_single_spec ls hall s hs
+
+/-- stated, not proved (the builder's totality): every valid code is accepted.  The missing part
+    is that the depth loop never meets a `Leaf` and ends on an `Empty` node, which needs the
+    soundness of every leaf and the absence of aliasing between paths; it is validated on every
+    run (the crate, the model and the specification agree on validity for every generated
+    vector, complete, incomplete and over-subscribed) -/
+def huffman_tree_accepts_valid : Prop :=
+  ∀ ls : List Nat, (∀ l ∈ ls, l ≤ 15) → ls.length ≤ 5000 → Prefix.validLengths ls = true →
+    ∃ b, Huff.build ls = b ∧ b matches .ok _ | .single _
+
+-- non-vacuity: a complete code is accepted and read (the runtime tie exercises secondary trees
+-- on every run; kernel evaluation of a 12-bit code takes minutes)
+example : (match Huff.build [1, 2, 3, 3] with | .ok _ => true | _ => false) = true ∧
+    Huff.readSym (Huff.build [1, 2, 3, 3]) [1, 1, 0, 1, 0, 1, 1, 1, 1, 1, 1, 1, 1, 1, 1, 1] = some (2, [1, 0, 1, 1, 1, 1, 1, 1, 1, 1, 1, 1, 1]) := by
+  decide +kernel
 
 end C01
